@@ -29,8 +29,9 @@ structure PCfg where
   localFromPresent : Bool
   deriving DecidableEq, Repr
 
-/-- The tree as of commit 8f80b72 (none of the three). -/
+/-- /repo as of 8f80b72 (none of the three; diffs in /verif/proposed-fixes). -/
 def PCfg.pinned : PCfg := ⟨false, false, false⟩
+def PCfg.current : PCfg := PCfg.pinned
 def PCfg.repaired : PCfg := ⟨true, true, true⟩
 
 /-! ## unit.go: wire form -/
